@@ -107,6 +107,7 @@ def run(ck):
     def acc_molecule(x, u, u2):
         with energy_units(u):
             mol = Molecule([0.0, x])
+            mol.get_energy(1)                 # an earlier read under other units must not matter
         with energy_units(u2):
             return mol.get_energy(1)
 
@@ -120,6 +121,7 @@ def run(ck):
     def acc_mode(x, u, u2):
         with energy_units(u):
             md = Mode(frequency=x)
+            md.get_energy(0, no_conversion=False)
         with energy_units(u2):
             return md.get_energy(0, no_conversion=False)
 
@@ -127,12 +129,14 @@ def run(ck):
         agg = Aggregate([Molecule([0.0, 1.0]), Molecule([0.0, 1.1])])
         with energy_units(u):
             agg.set_resonance_coupling(0, 1, x)
+            agg.get_resonance_coupling(0, 1)
         with energy_units(u2):
             return agg.get_resonance_coupling(0, 1)
 
     def acc_hamiltonian(x, u, u2):
         with energy_units(u):
             h = Hamiltonian(data=numpy.array([[0.0, 0.0], [0.0, x]]))
+            h.data
         with energy_units(u2):
             d = h.data
         if d[0, 0] != 0 or d[0, 1] != 0:
@@ -170,7 +174,43 @@ def run(ck):
         with energy_units(u2):
             return in_current_units(x, u)
 
-    accessors = [("Molecule.__init__/get_energy", acc_molecule), ("Molecule.set_energy/get_energy", acc_molecule_set),
+    def acc_rwa(x, u, u2):
+        # rotating-wave energies of a Hamiltonian, read under the supplying unit first and then under another one
+        with energy_units(u):
+            h = Hamiltonian(data=numpy.array([[0.0, 0.0], [0.0, x]]))
+            h.set_rwa([0, 1])
+            h.get_RWA_skeleton()
+        with energy_units(u2):
+            sk = h.get_RWA_skeleton()
+            dd = h.get_RWA_data()
+        if abs(dd[1, 1]) > 1e-9 * abs(sk[1]):
+            raise AssertionError("get_RWA_data does not subtract the RWA energy in the current units: %r" % (dd,))
+        return sk[1]
+
+    def acc_array_kept(x, u, u2):
+        # the caller's ARRAY is changed after it was handed over: what was stored is the value at the time it was supplied
+        which = int(x * 64) % 3
+        arr = numpy.array([0.0, x]) if which == 0 else numpy.array([[0.0, 0.0], [0.0, x]])
+        with energy_units(u):
+            if which == 0:
+                ob = Molecule(arr)
+            elif which == 1:
+                ob = Hamiltonian(data=arr)
+            else:
+                ob = Aggregate([Molecule([0.0, 1.0]), Molecule([0.0, 1.1])])
+                arr = numpy.array([[0.0, x], [x, 0.0]])
+                ob.set_resonance_coupling_matrix(arr)
+        arr *= 3.0
+        arr[...] = arr + 1.0
+        with energy_units(u2):
+            if which == 0:
+                return ob.get_energy(1)
+            if which == 1:
+                return ob.data[1, 1]
+            return ob.get_resonance_coupling(0, 1)
+
+    accessors = [("Hamiltonian.set_rwa/get_RWA_skeleton (read twice)", acc_rwa), ("array supplied, then changed by the caller", acc_array_kept),
+                 ("Molecule.__init__/get_energy", acc_molecule), ("Molecule.set_energy/get_energy", acc_molecule_set),
                  ("set_current_units(global)/get_energy", acc_global), ("in_current_units", acc_in_current),
                  ("Mode.__init__/get_energy", acc_mode), ("Aggregate.set/get_resonance_coupling", acc_coupling),
                  ("Hamiltonian.data", acc_hamiltonian), ("CorrelationFunction reorg", acc_reorg),
@@ -451,6 +491,16 @@ def run(ck):
             ("EvolutionSuperOperator.calculate", lib_eso), ("StateVectorPropagator.propagate", lib_sv), ("DFunction Fourier transforms", lib_ft),
             ("bath function transforms", lib_bathft), ("initial states", lib_states), ("save/load_parcel", lib_save),
             ("eigenbasis_of/diagonalize", lib_basis), ("Molecule getters", lib_molham), ("set_coupling_by_dipole_dipole", lib_dipdip)]
+    def lib_convert_refused():
+        from quantarhei.core.units import in_current_units
+        for bad_, un_ in ((0, "nm"), ([1.0, 2.0], "1/cm"), (None, "eV"), ((3.0, 4.0), "THz")):
+            for f_ in (lambda: qr.convert(bad_, un_), lambda: qr.convert(bad_, un_, to="1/cm"), lambda: in_current_units(bad_, un_)):
+                try:
+                    f_()
+                except Exception:
+                    pass
+
+    libs += [("convert / in_current_units (refused argument)", lib_convert_refused)]
     libs += [("Aggregate.build", lib_build), ("Aggregate.build(mult=2)", lib_build_mult2), ("get_RelaxationTensor", lib_relax),
             ("get_RelaxationTensor(time_dependent)", lib_relax_td), ("get_Hamiltonian.data", lib_ham), ("CorrelationFunction+", lib_cf),
             ("TimeAxis.get_FrequencyAxis", lib_faxis), ("convert", lib_convert), ("AbsSpectrumCalculator.calculate", lib_abs),
